@@ -199,7 +199,7 @@ class SFNTWriterSetItem(Contract):
         return f(a.self, a.tag, a.data)
 
     from fontTools.ttLib import TTLibError as _E
-    raises = {_E: lambda a: a.tag in a.self.tables and len(a._file.writes) == 0}
+    raises = {_E: lambda a: a.tag in a.old.self.tables}
 
     @staticmethod
     def _entry(a):
